@@ -11,7 +11,7 @@ DRAW_NAMES = ["u", "v", "g"]
 PARAM_NAMES = ["p", "q", "a"]
 
 SMALL_COEFFS = [F(1), F(2), F(-1), F(1, 2), F(3), F(-2), F(1, 3), F(3, 2), F(-1, 2), F(1, 4)]
-PROBS = [F(1, 2), F(1, 3), F(1, 4), F(2, 3), F(3, 4), F(1, 5), F(1, 10), F(9, 10), F(3, 10)]
+PROBS = [F(1, 2), F(1, 3), F(1, 4), F(2, 3), F(3, 4), F(1, 5), F(1, 10), F(9, 10), F(3, 10), F(9999, 10000), F(1, 8), F(1, 1000)]
 
 
 def add(a, b):
@@ -51,7 +51,8 @@ class Gen:
         self.rng = rng
         self.features = set()
         self.profile = profile or rng.choice(
-            ["discrete", "discrete", "mixed", "continuous", "guarded", "guarded", "linear", "nested", "multiassign", "symbolic"]
+            ["discrete", "discrete", "mixed", "continuous", "guarded", "guarded", "linear", "nested", "multiassign", "symbolic",
+             "delay", "counter"]
         )
         self.fin = {}     # name -> set of possible values (Fractions) as designed
         self.data = []    # ordered data variables (level order)
@@ -292,9 +293,84 @@ class Gen:
         return name, ("draw", fam, ps)
 
     # ---------------------------------------------------------------- assembly
+    def build_delay(self):
+        """shift registers / delay chains: x accumulates y, y copies z one iteration late, z is (re)drawn or constant;
+        exercises solutions that are only valid after a transient (coefficient-0 chains)"""
+        r = self.rng
+        self.feat("profile-delay")
+        depth = r.choice([1, 2, 2, 3])
+        chain = ["y", "z", "w"][:depth]
+        inits = [num(r.choice([0, 1, 2, -1, 3])) for _ in range(depth + 1)]
+        self.init.append(("assign", "x", ("poly", inits[0])))
+        for v, iv in zip(chain, inits[1:]):
+            self.init.append(("assign", v, ("poly", iv)))
+        body = []
+        acc = r.choice([F(1), F(1), F(1, 2), F(2)])
+        body.append(("assign", "x", ("poly", add(scaled(acc, var("x")), scaled(r.choice(SMALL_COEFFS), var(chain[0]))))))
+        for a, b in zip(chain, chain[1:]):
+            e = var(b) if r.random() < 0.6 else add(var(b), num(r.choice([1, -1, 2])))
+            body.append(("assign", a, ("poly", e)))
+        last = chain[-1]
+        k = r.random()
+        if k < 0.4:
+            body.append(("assign", last, ("poly", num(r.choice([5, 2, -3, F(1, 2)])))))
+            self.feat("delay-constant-source")
+        elif k < 0.7:
+            body.append(("assign", last, ("choice", [(num(1), num(F(1, 2))), (num(r.choice([3, -1, 0])), num(F(1, 2)))])))
+            self.feat("delay-random-source")
+        else:
+            body.append(("assign", last, ("draw", "Bernoulli", [self.prob_expr(False)])))
+            self.feat("delay-random-source")
+        if r.random() < 0.4:
+            # a finite control variable and a conditional update on top
+            self.fin["c"] = {F(0), F(1)}
+            self.init.append(("assign", "c", ("poly", num(0))))
+            body.append(("assign", "c", ("draw", "Bernoulli", [num(F(1, 2))])))
+            body.append(("if", [(("atom", var("c"), "==", num(1)), [("assign", "x", ("poly", add(var("x"), var(chain[0]))))])], None))
+            self.feat("if")
+        if r.random() < 0.3:
+            r.shuffle(body)
+            self.feat("delay-shuffled-order")
+        self.data = ["x"] + chain
+        return Program([], self.init, ("true",), body)
+
+    def build_counter(self):
+        """bounded counter in the guard (declared type): the loop stops after exactly k iterations"""
+        r = self.rng
+        self.feat("profile-counter")
+        k = r.choice([2, 3, 4])
+        start = r.choice([0, 0, 1])
+        self.typedefs.append(("c", "FiniteRange", [num(0), num(k)]))
+        self.fin["c"] = {F(i) for i in range(0, k + 1)}
+        self.init.append(("assign", "c", ("poly", num(start))))
+        self.init.append(("assign", "x", ("poly", num(r.choice([0, 1, -1])))))
+        body = [("assign", "c", ("poly", add(var("c"), num(1))))]
+        upd = r.choice(["add", "choice", "mul", "draw"])
+        if upd == "add":
+            body.append(("assign", "x", ("poly", add(var("x"), num(r.choice([2, 1, -1, F(1, 2)]))))))
+        elif upd == "choice":
+            body.append(("assign", "x", ("choice", [(add(var("x"), num(1)), num(F(1, 3))), (add(var("x"), var("c")), num(F(2, 3)))])))
+        elif upd == "mul":
+            body.append(("assign", "x", ("poly", add(mul(num(2), var("x")), var("c")))))
+        else:
+            body.append(("assign", "u", ("draw", "Normal", [num(1), num(1)])))
+            body.append(("assign", "x", ("poly", add(var("x"), var("u")))))
+            self.draws["u"] = ("Normal", [])
+        if r.random() < 0.5:
+            body.reverse() if upd != "draw" else None
+        cop, bound = r.choice([("<", k), ("<", k), ("<=", k - 1), ("/=", k)][:3])
+        self.feat("guard")
+        self.feat("guard-ineq")
+        self.data = ["x"]
+        return Program(self.typedefs, self.init, ("atom", var("c"), cop, num(bound)), body)
+
     def build(self):
         r = self.rng
         prof = self.profile
+        if prof == "delay":
+            return self.build_delay()
+        if prof == "counter":
+            return self.build_counter()
         self.feat("profile-" + prof)
         n_fin = {"discrete": r.choice([1, 2, 3]), "mixed": r.choice([1, 2]), "continuous": r.choice([0, 1]),
                  "guarded": r.choice([1, 2, 3]), "linear": r.choice([0, 0, 1]), "nested": r.choice([2, 3]),
